@@ -159,9 +159,20 @@ def run_driver(lines: Sequence[str], timeout: int = 1800) -> List[str]:
     if not DRIVER.exists():
         raise RuntimeError("driver not built")
     data = ("\n".join(lines) + "\n").encode()
-    p = subprocess.run([str(DRIVER)], input=data, capture_output=True, timeout=timeout)
-    if p.returncode != 0:
-        raise RuntimeError(f"driver failed rc={p.returncode}: {p.stderr[-2000:]!r}")
+    p = None
+    for attempt in range(6):
+        # the binary may be in the middle of being relinked by a concurrent check of another property
+        try:
+            p = subprocess.run([str(DRIVER)], input=data, capture_output=True, timeout=timeout)
+        except OSError:
+            p = None
+        if p is not None and p.returncode == 0:
+            break
+        import time as _t
+
+        _t.sleep(3)
+    if p is None or p.returncode != 0:
+        raise RuntimeError(f"driver failed rc={None if p is None else p.returncode}: {b'' if p is None else p.stderr[-2000:]!r}")
     out = p.stdout.decode().split("\n")
     if out and out[-1] == "":
         out.pop()
